@@ -61,6 +61,12 @@ package matcher
 //@ func regexToPrefix(regex string) []byte
 //@   property C03
 //@   ensures[prefix_necessary; C03; bounded] pfxNec(regex, result[..])
+//@   loop 1:
+//@     invariant[idx; C14] 0 <= i
+//@   loop 2:
+//@     invariant[idx; C14] 0 <= i
+//@   loop 3:
+//@     invariant[idx; C14] 0 <= i
 //@   bounded TestBounded_regexToPrefix "all regexes "^" + <= 4 (thorough: 5) tokens over {^ a b . - \. ? * + {0} {1,2} ( ) | [ab]} x all inputs of length <= 5 over {a,b,.}, against the real regexp package"
 //@
 //@ // New / updateInternals establish wf (or return the compile error)
